@@ -891,7 +891,9 @@ func (h *vHistC13) classifyInv1(v *vInv1C13) {
 			}
 			n++
 			switch a.outcome {
-			case "fail", "hang-timeout":
+			case "fail", "permfail", "hang-timeout":
+				// (a permanently failing Save keeps the call busy when the retry layer's
+				// clean-up Remove of the partial file hangs)
 			case "hang-ok", "hang-cancelled", "fail-cancelled":
 				if a.until < v.staleAt {
 					bad++
@@ -951,9 +953,12 @@ func (h *vHistC13) classifyMonitor(v *vInv1C13, w vWriteC13) {
 		}
 	}
 	switch {
-	case silent && r.notify >= prevNotify+monitorDueC13 && r.notify-r.start >= time.Second:
+	case silent && v.until > r.notify+monitorDueC13+5*time.Second && r.notify >= prevNotify+monitorDueC13 && r.notify-r.start >= time.Second:
+		// not even the monitor acted when its (late) deadline came
 		v.deadlock, v.silence = true, v.until-r.notify
-	case !silent && r.notify-r.start > staleAfterC13-monitorDueC13 && v.staleAt < r.notify+monitorDueC13:
+	case r.notify-r.start > staleAfterC13-monitorDueC13 && v.staleAt < r.notify+monitorDueC13:
+		// (the ticker path is silent by design once the lock is older than 22.5 min: it
+		// waits for the monitor, which counts from the completion of the slow refresh)
 		v.slow, v.took = true, r.notify-r.start
 	}
 }
